@@ -19,7 +19,8 @@
 //	            messages whose IPFIX sequence number is 0..n-1 (0 = a template set, the others one data record
 //	            carrying (domain, sequence number) again in its two fields), then
 //	            b = c  closes
-//	                a  writes the first half of one more message and closes (abrupt close mid-message)
+//	                a  writes the first half of one more message and closes (abrupt close mid-message; over UDP, where the
+//	                   fragment is a datagram of its own: at most its first 16 bytes - never a decodable message)
 //	                i  stays connected and silent until the collector has been stopped
 //	                h  writes the first half of one more message and stays connected until the collector has been stopped
 //	                s  (tls) connects over TCP, sends 3 bytes of a ClientHello and stalls until the collector has been
@@ -595,8 +596,16 @@ func (r *run) client(i int, res *clientResult, release <-chan struct{}) {
 	}
 	if (spec.beh == 'a' || spec.beh == 'h') && !res.writeErr {
 		b := r.sc.clientMsg(i, uint32(spec.n))
+		half := len(b) / 2
+		if udp && half > 16 {
+			// over UDP the fragment is a datagram of its own and nothing follows it: keep it shorter than message
+			// header + set header (20 bytes), so that - as with the 28-byte messages - it can never be decoded. (The
+			// collector does not compare the header's length field with the datagram: half of a 130-record message
+			// would be delivered as a message with the records that fit, which is not what a/h are about.)
+			half = 16
+		}
 		conn.SetWriteDeadline(time.Now().Add(writeDL))
-		conn.Write(b[:len(b)/2])
+		conn.Write(b[:half])
 	}
 	if spec.holds() {
 		<-release
